@@ -37,7 +37,7 @@ def _fj(job):
 
 def jobs(tier, seed, prop="C06"):
     out = []
-    plan = [(1, 3, 3), (2, 3, 3), (3, 2, 4)] if tier == "quick" else [(1, 4, 4), (2, 4, 4), (3, 3, 4), (4, 2, 5)]
+    plan = [(1, 3, 3), (2, 3, 3), (3, 2, 4)] if tier == "quick" else [(1, 4, 4), (2, 3, 4), (3, 3, 4), (4, 2, 5)]
     for n, L, total in plan:
         for f in all_forests(n, outliers=True):
             if n >= 3 and len(f.outliers) > 1:
@@ -222,7 +222,7 @@ def evidence(tier, seed, results, canaries):
                            "node's log_p/log_r entry and of both joint densities for all positive data and alpha.",
             "functions_encoded": funcs,
             "bounds": {"quick": "start forests on 1-2 points (every outlier subset) with histories <= 3 edits, on 3 points (<= 1 outlier) with <= 2 edits; up to 4 data points in total",
-                       "thorough": "<= 4 edits from 1-2 points, <= 3 from 3 points, <= 2 from 4 points", "grid": 2, "samples": 1,
+                       "thorough": "<= 4 edits from 1 point, <= 3 from 2-3 points (two spare points at n=2), <= 2 from 4 points incl. one outlier", "grid": 2, "samples": 1,
                        "grammar": "add new point to top-level clone / new clone above any subset of top-level clones / new outlier / move a point between clones and outliers (copy-edit) / prune-regraft with all candidates built from one subtree object / subtree round trip through dict form / relabel / copy / dict round trip"},
             "outside_bounds": ["longer histories", "rounding drift (real arithmetic)", "grids > 2"],
             "obligations": obligations, "discharged": discharged,
